@@ -188,9 +188,12 @@ def cases(seed: int = 0, thorough: bool = False):
         c3 = _arr(rng, tuple(5 if i == ax % 3 else d for i, d in enumerate((2, 3, 4))), "float64")
         add(f"concatenate:axis={ax}", lambda x, y, ax=ax: pt.concatenate([x, y, x], axis=ax),
             lambda x, y, ax=ax: np.concatenate([x, y, x], axis=ax), {"x": a3, "y": c3}, "remap", exact=True)
-    for ax in [0, 1, 3, -1, (0, 2), (0, 4)]:
+    for ax in [0, 1, 3, -1, (0, 2), (0, 4), (2, 0), (1, 0), (-2, 0), (4, 2, 0), (0, -1), (-1, 0), (3, 1), (-4, -1), (1, -5)]:
         add(f"expand_dims:{ax}", lambda x, ax=ax: pt.expand_dims(x, ax), lambda x, ax=ax: np.expand_dims(x, ax), {"x": a3},
             "remap", exact=True)
+    w4 = _arr(rng, (1, 2, 1, 3), "float64")
+    add("expand_dims:(2,0)+w", lambda x, w: pt.sum(pt.expand_dims(x, (2, 0)) * w, axis=3),
+        lambda x, w: np.sum(np.expand_dims(x, (2, 0)) * w, axis=3), {"x": _arr(rng, (2, 3), "float64"), "w": w4}, "remap")
     sq = _arr(rng, (1, 3, 1, 2), "float64")
     for ax in [None, 0, (0, 2), -2]:
         add(f"squeeze:{ax}", (lambda x, ax=ax: pt.squeeze(x, axis=ax)) if ax is not None else (lambda x: pt.squeeze(x)),
